@@ -17,6 +17,7 @@ save_kern (Model/C19_kern.v parts 1, 2), dispatch by extension on generated file
 import json
 import math
 import os
+import random
 from fractions import Fraction
 
 import core
@@ -913,8 +914,9 @@ def observe_part(part):
     return ob
 
 
-def load(path, loader="load_score"):
-    """Returns ('ok', [observed part per staff, in doc['staves'] order]) or ('err', text)."""
+def load(path, loader="load_score", keep=None):
+    """Returns ('ok', [observed part per staff, in doc['staves'] order]) or ('err', text); the loaded Score is appended
+    to ``keep`` (history stream: the object stays alive and is edited / exported later)."""
     import partitura as pt
     try:
         if loader == "load_score":
@@ -928,6 +930,8 @@ def load(path, loader="load_score"):
         tb = traceback.extract_tb(ex.__traceback__)
         where = "%s:%d %s" % (os.path.basename(tb[-1].filename), tb[-1].lineno, tb[-1].name)
         return "err", "%s: %s @ %s" % (type(ex).__name__, str(ex)[:200], where)
+    if keep is not None:
+        keep.append(sc)
     parts = list(sc.parts)
     if path.endswith(".mei"):   # the harness names MEI documents *.mei, kern documents *.krn / *.kern
         obs = [observe_part(p) for p in parts]
@@ -2010,10 +2014,10 @@ def has_tied_chord(doc):
     return "chord_tie" in features(doc)
 
 
-def check_import(doc, loader="load_score", name="doc"):
+def check_import(doc, loader="load_score", name="doc", keep=None):
     """Write, load, compare: returns (status, obs_or_text, bad list)."""
     path, text = write_doc(doc, name)
-    st, obs = load(path, loader)
+    st, obs = load(path, loader, keep)
     if st == "err":
         return "err", obs, [("load", obs)], text
     if doc["opts"].get("same_part"):
@@ -2203,10 +2207,10 @@ def run(ctx):
                        "both writers take the written value from it",
                        "dispatch: which of the OTHER readers runs for a name, or none, is not compared (classes 0 and 3 are merged)"]
     register_matchers(ctx)
-    ok, why = ctx.coq_props(expect_min=45)
+    ok, why = ctx.coq_props(expect_min=52)
     quick = ctx.tier == "quick"
-    n_docs = {"mei": 110 if quick else 2600, "kern": 110 if quick else 2600}
-    n_exp = {"mei": 70 if quick else 1500, "kern": 30 if quick else 550}   # save_kern is ~5x slower than save_mei
+    n_docs = {"mei": 100 if quick else 2600, "kern": 100 if quick else 2600}
+    n_exp = {"mei": 60 if quick else 1500, "kern": 26 if quick else 550}   # save_kern is ~5x slower than save_mei
     n_viol = 0
     coq_cases, coq_docs = [], []
     ppq_cases = []
@@ -2376,6 +2380,9 @@ def run(ctx):
     ctx.log("kern token probes done")
     run_dispatch(ctx, 120 if quick else 3000, ok)
     ctx.log("dispatch by extension done")
+    run_histories(ctx, 15 if quick else 500)
+    run_token_histories(ctx, 40 if quick else 1500, ok)
+    ctx.log("histories (state carried between calls) done")
     # ---- dispatch by extension (negative side): an unknown extension is rejected, not guessed
     import partitura as pt
     p = os.path.join(work_dir(), "x.c19unknown")
@@ -2806,6 +2813,555 @@ def run_reexport(ctx, n):
                 break
 
 
+# --------------------------------------------------------------------------
+# HISTORY stream: state carried between calls.  A history is a list of operations over live objects (Scores the
+# loaders returned, Parts the harness built): load a file (the same path is overwritten with other documents), export
+# a live part (Part / Score / Score whose part was replaced with score[i] = part / list; to a path, a file object, or
+# the returned bytes / array, which is then scribbled over), edit a live part (pitch in place, halve the written value
+# and the time span of a note by replacing or by editing its symbolic_duration dict, remove a note, swap two staves,
+# turn every integer attribute into a numpy scalar), scribble over data a call returned (a loaded note's
+# symbolic_duration dict, a note array).  Every observation is judged against the CURRENT state only: a load against
+# the denotation of the document that is in the file now, an export against the notes read from the live objects at
+# the moment of the call.
+
+HIST_EDITS = ["pitch", "pitch", "halve", "halve_inplace", "drop", "swap_staves", "kinds"]
+
+
+def hist_notes(part):
+    import partitura.score as S
+    return list(part.iter_all(S.Note, include_subclasses=True))
+
+
+def current_rows(part):
+    """{key: (onset, duration, step, alter, octave, staff)} read from the note objects of the part NOW."""
+    q = part._quarter_durations[0]
+    dv = int(q)
+    if dv != q:
+        raise ValueError("divisions %r are not integral" % (q,))
+    rows = {}
+    for k, n in enumerate(hist_notes(part)):
+        key = n.id if (isinstance(n.id, str) and len(n.id) > 1 and n.id[0] == "n" and n.id[1:].isdigit()) else "x%d" % k
+        rows[key] = (F(int(n.start.t), dv), F(int(n.end.t) - int(n.start.t), dv), str(n.step).upper(), a0(n.alter), int(n.octave), int(n.staff))
+    return rows
+
+
+def hist_edit_candidates(part):
+    """Notes whose removal / halving leaves every (voice, staff) pair a gap-free run up to a single written value:
+    plain value without dots, not tied, not beamed, alone at its onset in its voice, last of its pair in its measure and
+    not the only one."""
+    import partitura.score as S
+    notes = [n for n in hist_notes(part) if not isinstance(n, S.GraceNote)]
+    every = list(part.iter_all(S.GenericNote, include_subclasses=True))
+    out = []
+    for n in notes:
+        sd = n.symbolic_duration or {}
+        if sd.get("dots") or sd.get("actual_notes") or sd.get("type") not in ("whole", "half", "quarter", "eighth", "16th"):
+            continue
+        if n.tie_prev is not None or n.tie_next is not None or getattr(n, "beam", None) is not None:
+            continue
+        ms = [m for m in part.iter_all(S.Measure) if m.start.t <= n.start.t < m.end.t]
+        if len(ms) != 1 or n.end.t > ms[0].end.t:
+            continue
+        a, b = ms[0].start.t, ms[0].end.t
+        same = [o for o in every if o is not n and o.voice == n.voice and a <= o.start.t < b]
+        if any(o.start.t >= n.start.t for o in same) or not any(o.staff == n.staff and o.start.t < n.start.t for o in same):
+            continue
+        if any(o.start.t < n.start.t < o.end.t for o in same):
+            continue
+        out.append(n)
+    return out
+
+
+def hist_edit(part, kind, seed):
+    """Edits the live part; returns a description (None: not applicable in the current state)."""
+    import numpy as np
+    import partitura.score as S
+    rng = random.Random(seed)
+    notes = hist_notes(part)
+    if not notes:
+        return None
+    if kind == "pitch":
+        cands = [n for n in notes if n.tie_prev is None and n.tie_next is None]
+        if not cands:
+            return None
+        n = cands[rng.randrange(len(cands))]
+        old = (n.step, n.alter, n.octave)
+        for _ in range(8):
+            new = (STEPS[rng.randrange(7)], rng.choice([None, None, 1, -1, 2, -2, 0]), rng.randint(1, 7))
+            if (new[0], a0(new[1]), new[2]) != (str(old[0]).upper(), a0(old[1]), int(old[2])):
+                break
+        n.step, n.alter, n.octave = new
+        return "note %s at tick %d: pitch %s -> %s (attributes set in place)" % (n.id, n.start.t, old, new)
+    if kind in ("halve", "halve_inplace", "drop"):
+        cands = hist_edit_candidates(part)
+        if kind != "drop":
+            cands = [n for n in cands if (n.end.t - n.start.t) % 2 == 0]
+        if not cands:
+            return None
+        n = cands[rng.randrange(len(cands))]
+        a, b = int(n.start.t), int(n.end.t)
+        part.remove(n)
+        if kind == "drop":
+            # the voice stays gap-free: a rest of the same written value takes the place of the note
+            part.add(S.Rest(id="hr%d" % (seed % 100000), voice=n.voice, staff=n.staff, symbolic_duration={"type": n.symbolic_duration["type"]}), a, b)
+            return "note %s at tick %d removed (Part.remove), a rest put in its place" % (n.id, a)
+        nxt = {"whole": "half", "half": "quarter", "quarter": "eighth", "eighth": "16th", "16th": "32nd"}[n.symbolic_duration["type"]]
+        if kind == "halve":
+            n.symbolic_duration = {"type": nxt}
+        else:
+            n.symbolic_duration["type"] = nxt
+        part.add(n, a, a + (b - a) // 2)
+        part.add(S.Rest(id="hr%d" % (seed % 100000), voice=n.voice, staff=n.staff, symbolic_duration={"type": nxt}), a + (b - a) // 2, b)
+        return "note %s at tick %d: written value and time span halved (%s)" % (n.id, a, "new dict" if kind == "halve" else "dict edited in place")
+    if kind == "swap_staves":
+        every = list(part.iter_all(S.GenericNote, include_subclasses=True))
+        staves = sorted({int(o.staff) for o in every if o.staff is not None})
+        clefs = {int(c.staff) for c in part.iter_all(S.Clef)}
+        staves = [s_ for s_ in staves if s_ in clefs]
+        if len(staves) < 2:
+            return None
+        s1, s2 = rng.sample(staves, 2)
+        for o in every:
+            if o.staff == s1:
+                o.staff = s2
+            elif o.staff == s2:
+                o.staff = s1
+        return "staves %d and %d of every note and rest swapped (attribute set in place)" % (s1, s2)
+    if kind == "kinds":
+        ity = rng.choice([np.int64, np.int32, np.int16])
+        for o in part.iter_all(S.GenericNote, include_subclasses=True):
+            o.staff = ity(o.staff) if o.staff is not None else None
+            o.voice = ity(o.voice) if o.voice is not None else None
+            if isinstance(o, S.Note):
+                o.octave = ity(o.octave)
+                o.alter = ity(o.alter) if o.alter is not None else None
+            sd = o.symbolic_duration
+            if isinstance(sd, dict):
+                for k_ in ("dots", "actual_notes", "normal_notes"):
+                    if sd.get(k_) is not None:
+                        sd[k_] = ity(sd[k_])
+        return "staff, voice, octave, alter, dots and tuplet ratio of every element turned into %s" % ity.__name__
+    raise ValueError(kind)
+
+
+def hist_save(part, fmt, argkind, outkind, loader, tag):
+    """Exports the live part and loads the result again: (rows of the part at the moment of the call, loaded rows)."""
+    import partitura as pt
+    import partitura.score as S
+    from partitura.io.exportkern import save_kern
+    rows = current_rows(part)
+    if argkind == "score":
+        arg = S.Score([part])
+    elif argkind == "score_set":
+        arg = S.Score([S.Part("P0", "placeholder", quarter_duration=1)])
+        arg[0] = part          # the public way to replace a part: Score.parts is what the writers must read
+    elif argkind == "list" and fmt == "mei":
+        arg = [part]
+    else:
+        arg = part
+    path = os.path.join(work_dir(), "hist_%s.%s" % (tag, "mei" if fmt == "mei" else "krn"))
+    if fmt == "mei":
+        if outkind == "file":
+            with open(path, "wb") as f:
+                pt.save_mei(arg, f)
+        elif outkind == "return":
+            data = pt.save_mei(arg)
+            with open(path, "wb") as f:
+                f.write(data if isinstance(data, bytes) else data.encode("utf-8"))
+        else:
+            pt.save_mei(arg, path)
+    else:
+        if outkind == "return":
+            arr = save_kern(arg)
+            with open(path, "w") as f:
+                f.write("\n".join("\t".join(str(c) for c in row) for row in arr) + "\n")
+            try:
+                arr[...] = "4c"        # the caller owns what it was handed
+            except Exception:
+                pass
+        else:
+            save_kern(arg, path)
+    sc = getattr(pt, loader)(path)
+    got = []
+    for q in sc.parts:
+        dv2 = int(q._quarter_durations[0])
+        for n in hist_notes(q):
+            got.append((n.id, F(int(n.start.t), dv2), F(int(n.end.t - n.start.t), dv2), n.step.upper(), a0(n.alter), n.octave, n.staff))
+    return rows, got
+
+
+def run_history(hist, stop_at_first=True):
+    """Runs the operations of one history in this process; returns [(op index, clause, text)] of the observations
+    that do not follow from the current state."""
+    import numpy as np
+    import partitura.score as S
+    live = {}       # name -> {"parts": [Part...], "spoiled": bool, "fmt": .., "score": Score}
+    bad = []
+    nsave = 0
+    for oi, op in enumerate(hist["ops"]):
+        if bad and stop_at_first:
+            break
+        k = op[0]
+        try:
+            if k == "load":
+                _, d, loader, fname, name = op
+                doc = hist["docs"][d]
+                keep = []
+                st, obs, b, text = check_import(doc, loader, fname, keep)
+                if b:
+                    bad.append((oi, ",".join(sorted({x[0] for x in b})),
+                                "%s document written to %s%s and loaded by %s differs from what its notation denotes [%s]: %s"
+                                % (doc["fmt"], fname, doc["opts"]["ext"], loader, ",".join(sorted({x[0] for x in b})), b[0][1][:300])))
+                if keep:
+                    parts = list(keep[0].parts)
+                    live[name] = {"parts": parts, "spoiled": False, "fmt": doc["fmt"], "score": keep[0]}
+            elif k == "build":
+                _, x, name = op
+                part, rows, vmap = build_part(hist["xdocs"][x])
+                live[name] = {"parts": [part], "spoiled": False, "fmt": "built", "score": None}
+            elif k == "edit":
+                _, name, pi, kind, seed = op
+                lv = live.get(name)
+                if lv is None or lv["spoiled"] or pi >= len(lv["parts"]):
+                    continue
+                hist_edit(lv["parts"][pi], kind, seed)
+            elif k == "scribble":
+                _, name, pi, what, seed = op
+                lv = live.get(name)
+                if lv is None or pi >= len(lv["parts"]):
+                    continue
+                part = lv["parts"][pi]
+                if what == "sym":
+                    # write into data a loader returned: later loads must not see it; the object is not exported afterwards
+                    ns = [n for n in hist_notes(part) if isinstance(n.symbolic_duration, dict)]
+                    if ns:
+                        n = ns[random.Random(seed).randrange(len(ns))]
+                        n.symbolic_duration["type"] = "long"
+                        n.symbolic_duration["dots"] = 3
+                        n.symbolic_duration["actual_notes"] = 7
+                        n.symbolic_duration["normal_notes"] = 5
+                        lv["spoiled"] = True
+                elif what == "na" and not lv["spoiled"]:
+                    before = observe_part(part).get("na")
+                    na = part.note_array(include_staff=True)
+                    if na.flags.writeable and len(na):
+                        for f_ in ("onset_div", "pitch", "duration_div", "staff"):
+                            na[f_] += 3
+                        na["onset_quarter"] += 1.5
+                    after = observe_part(part).get("na")
+                    if before != after:
+                        bad.append((oi, "note_array", "writing into the array Part.note_array() returned changed what the next call returns: %s -> %s"
+                                    % (str(before)[:200], str(after)[:200])))
+            elif k == "save":
+                _, name, pi, fmt, argkind, outkind, loader = op
+                lv = live.get(name)
+                if lv is None or lv["spoiled"] or pi >= len(lv["parts"]):
+                    continue
+                part = lv["parts"][pi]
+                nsave += 1
+                rows, got = hist_save(part, fmt, argkind, outkind, loader, hist.get("tag", "h"))
+                fm = "mei" if (fmt == "mei" and all(not key.startswith("x") for key in rows)) else "kern"
+                d_ = export_diff(fm, rows, got)
+                if d_:
+                    i0, e0, g0 = d_[0]
+                    bad.append((oi, ",".join(diff_clause(d_)),
+                                "save_%s(%s, out=%s) of live part %s[%d] then %s: the notes differ from what the part holds at the moment of the "
+                                "call [%s]: %d held / %d loaded, %d differ; first: %s held %s, loaded %s"
+                                % (fmt, argkind, outkind, name, pi, loader, ",".join(diff_clause(d_)), len(rows), len(got), len(d_),
+                                   "note %s" % i0 if i0 else "", fmt_xrow(e0), "; ".join(fmt_xrow(x) for x in (g0 or [])) or "none")))
+        except Exception as ex:
+            import traceback
+            tb = traceback.extract_tb(ex.__traceback__)
+            where = "%s:%d %s" % (os.path.basename(tb[-1].filename), tb[-1].lineno, tb[-1].name)
+            if "int32" in str(ex) and "OverflowError" in type(ex).__name__:
+                continue        # tick positions beyond int32: Part.note_array, not the writers (as in the re-export stream)
+            bad.append((oi, "error", "operation %r raised %s: %s @ %s" % (op, type(ex).__name__, str(ex)[:200], where)))
+    return bad
+
+
+def kern_values_ok(doc):
+    """Every tuplet value of the document has an integral kern reciprocal value (a half note 7:4 would be '3.5')."""
+    return all(kern_recip_ok(e["v"], e["t"]) for m in doc["measures"] for st in m["content"] for layer in st for e in flat(layer) if e.get("t"))
+
+
+def gen_history(rng, hi):
+    """One history over two import documents (A, B) of one format each and one or two built parts."""
+    docs, xdocs, ops = [], [], []
+
+    def allowed(name, fmt, origin):
+        # a LOADED part with tuplet values goes through the writer of its own format only (open item, design.d/C19.md);
+        # a built part whose tuplet values have no integral reciprocal value cannot be written as kern at all
+        if name in docof and has_tuplet(docs[docof[name]]):
+            return origin
+        if name[0] == "B" and fmt == "kern" and not kern_values_ok(xdocs[int(name[1:])]):
+            return "mei"
+        return fmt
+    fmts = [rng.choice(["mei", "kern"]), rng.choice(["mei", "kern"])]
+    for fmt in fmts:
+        w = dict(REEXPORT_W)
+        w.update({"tuplet": rng.choice([0.0, 0.2, 0.45]), "meter_change": 0.0, "key_change": 0.1, "grace": 0.0, "small": 0.6})
+        docs.append(gen_doc(rng, fmt, w, nmeas=rng.randint(1, 2), nstaves=rng.choice([1, 1, 2])))
+    nb = rng.choice([1, 1, 2])
+    for _ in range(nb):
+        fmt = rng.choice(["mei", "mei", "kern"])
+        for _try in range(30):
+            x = gen_xdoc(rng, fmt)
+            if len(x["measures"]) <= 2 and not has_grace(x) and kern_gaps_ok(x) and (fmt == "mei" or x["xopts"]["cross"] != "free"):
+                break
+        x["xfmt_hint"] = fmt
+        xdocs.append(x)
+    names = []
+    docof = {}
+    # the same path for both documents when the formats agree: a cache keyed by the path would be stale
+    fn = ["hist", "hist" if rng.random() < 0.6 else "hist2"]
+    loaders = lambda d: rng.choice(["load_score", "load_score", "load_mei" if fmts[d] == "mei" else "load_kern"])
+    for d in rng.sample([0, 1], 2):
+        ops.append(["load", d, loaders(d), fn[d], "L%d" % d])
+        names.append(("L%d" % d, len(docs[d]["staves"]) if not docs[d]["opts"].get("same_part") else 1, fmts[d]))
+        docof["L%d" % d] = d
+    for x in range(nb):
+        ops.append(["build", x, "B%d" % x])
+        names.append(("B%d" % x, 1, "built:" + xdocs[x]["xfmt_hint"]))
+    nsteps = rng.randint(3, 6)
+    k = 0
+    for _ in range(nsteps):
+        name, npart, origin = names[rng.randrange(len(names))]
+        pi = rng.randrange(npart)
+        r = rng.random()
+        if r < 0.45:
+            if origin == "built:kern" or origin == "kern":
+                fmt = "kern" if rng.random() < 0.6 else "mei"
+            else:
+                fmt = "mei" if rng.random() < 0.8 else "kern"
+            fmt = allowed(name, fmt, origin)
+            argkind = rng.choice(["part", "part", "score", "score_set", "list"])
+            outkind = rng.choice(["path", "path", "return", "file"])
+            ops.append(["save", name, pi, fmt, argkind, outkind, rng.choice(["load_score", "load_score", "load_mei" if fmt == "mei" else "load_kern"])])
+        elif r < 0.8:
+            ops.append(["edit", name, pi, rng.choice(HIST_EDITS), rng.randrange(1 << 30)])
+        elif r < 0.88 and name.startswith("L"):
+            ops.append(["scribble", name, pi, "sym", rng.randrange(1 << 30)])
+            d = int(name[1:])
+            ops.append(["load", 1 - d, loaders(1 - d), fn[1 - d], "M%d" % k])
+            ops.append(["load", d, loaders(d), fn[d], "N%d" % k])
+            names.append(("N%d" % k, names[[n_[0] for n_ in names].index(name)][1], fmts[d]))
+            docof["N%d" % k] = d
+            k += 1
+        elif r < 0.94:
+            ops.append(["scribble", name, pi, "na", 0])
+        else:
+            d = rng.randrange(2)
+            ops.append(["load", d, loaders(d), fn[d], "R%d" % k])
+            k += 1
+    # the core pattern, once per history at least: call -> edit -> the same call again (and its sibling)
+    name, npart, origin = names[rng.randrange(len(names))]
+    pi = rng.randrange(npart)
+    fmt = origin.split(":")[-1]
+    ldr = rng.choice(["load_score", "load_mei" if fmt == "mei" else "load_kern"])
+    other = "kern" if fmt == "mei" else "mei"
+    triple = [["save", name, pi, fmt, rng.choice(["part", "score", "score_set"]), rng.choice(["path", "return"]), ldr],
+              ["edit", name, pi, rng.choice(["pitch", "pitch", "halve_inplace", "halve", "drop", "kinds", "swap_staves"]), rng.randrange(1 << 30)],
+              ["edit", name, pi, "pitch", rng.randrange(1 << 30)],
+              ["save", name, pi, fmt, "part", "path", ldr]]
+    fmt = allowed(name, fmt, origin)
+    for t_ in triple:
+        if t_[0] == "save":
+            t_[3] = fmt
+            if t_[6] in ("load_mei", "load_kern"):
+                t_[6] = "load_mei" if fmt == "mei" else "load_kern"
+    if allowed(name, other, origin) == other:
+        triple.append(["save", name, pi, other, "part", "path", "load_score"])
+    at = rng.randint(len(names), len(ops))
+    ops[at:at] = triple
+    # every live object is exported once more at the end, in a fresh order
+    tail = [(n_, pi) for n_, npart, _ in names for pi in range(npart)]
+    rng.shuffle(tail)
+    for n_, pi in tail[:3]:
+        origin = [o for a_, _, o in names if a_ == n_][0]
+        fmt = "kern" if (origin.endswith("kern") and rng.random() < 0.5) else "mei"
+        fmt = allowed(n_, fmt, origin)
+        ops.append(["save", n_, pi, fmt, "part", "path", "load_score"])
+    return {"dir": "history", "docs": docs, "xdocs": xdocs, "ops": ops, "tag": "h"}
+
+
+def mirror_history(h):
+    """The same history with the two import documents (and the two built parts) in the other order."""
+    import copy
+    m = copy.deepcopy(h)
+    first = [i for i, op in enumerate(m["ops"]) if op[0] == "load"][:2]
+    if len(first) == 2:
+        i, j = first
+        m["ops"][i], m["ops"][j] = m["ops"][j], m["ops"][i]
+    b = [i for i, op in enumerate(m["ops"]) if op[0] == "build"]
+    if len(b) == 2:
+        m["ops"][b[0]], m["ops"][b[1]] = m["ops"][b[1]], m["ops"][b[0]]
+    saves = [i for i, op in enumerate(m["ops"]) if op[0] == "save"]
+    rev = [m["ops"][i] for i in reversed(saves[-3:])]
+    for i, op in zip(saves[-3:], rev):
+        m["ops"][i] = op
+    return m
+
+
+def shrink_history(h, budget=40):
+    """ddmin over the operations (an operation whose object is gone is skipped by run_history)."""
+    import copy
+    calls = [0]
+
+    def fails(ops):
+        calls[0] += 1
+        if calls[0] > budget:
+            return False
+        h2 = dict(h, ops=list(ops))
+        try:
+            return bool(run_history(h2))
+        except Exception:
+            return False
+    b0 = run_history(h)
+    if not b0:
+        return h
+    ops = h["ops"][:b0[0][0] + 1]
+    if not fails(ops):
+        ops = h["ops"]
+    ops = core.ddmin(ops, fails)
+    return copy.deepcopy(dict(h, ops=ops))
+
+
+def run_histories(ctx, n):
+    hs = []
+    for hi in range(n):
+        h = gen_history(ctx.rng, hi)
+        hs.append(h)
+        if hi % 3 == 0:
+            hs.append(mirror_history(h))
+    nv = 0
+    for h in hs:
+        bad = run_history(h)
+        ctx.evaluations += 1
+        ctx.count("history")
+        for op in h["ops"]:
+            ctx.count("history:op=%s" % (op[0] if op[0] != "edit" else "edit:" + op[3]) + (":" + op[3] if op[0] == "save" else ""))
+            if op[0] == "save":
+                ctx.count("history:save_arg=%s" % op[4])
+                ctx.count("history:save_out=%s" % op[5])
+        if not bad:
+            ctx.nontrivial("history" + json.dumps(h["ops"]))
+            continue
+        small = h
+        if nv < 3:
+            try:
+                small = shrink_history(h)
+            except Exception:
+                small = h
+        b2 = run_history(small) or bad
+        if b2 is bad:
+            small = h
+        res = ctx.violation("history of %d operations (%s): %s" % (len(small["ops"]), " -> ".join(
+            "%s%s" % (op[0], ":" + str(op[3]) if op[0] in ("edit", "save", "scribble") else "") for op in small["ops"]), b2[0][2][:600]),
+            dict(small, clauses=[b2[0][1]], failing_op=small["ops"][b2[0][0]], mismatch=[x[2] for x in b2[:3]], unshrunk_ops=h["ops"],
+                 note="all histories run in one process: if an earlier operation polluted module-level state the shrunk history fails from "
+                      "its first operation on; unshrunk_ops is the history as generated"))
+        if res != "known":
+            nv += 1
+        if nv >= 5:
+            break
+
+
+def has_tuplet(doc):
+    return any(e.get("t") for m in doc["measures"] for st in m["content"] for layer in st for e in flat(layer))
+
+
+def run_token_histories(ctx, n, ok):
+    """One-voice parts exported by save_kern, edited, exported again: the note tokens of every export, replayed through the
+    Gallina state machine Model/C19_hist.v (check_hist): every export writes the tokens of the CURRENT notes."""
+    import numpy as np
+    import partitura.score as S
+    from partitura.io.exportkern import save_kern
+    alters = [None, None, 0, 1, 2, -1, -2]
+    cases, infos = [], []
+
+    def rnd_dur():
+        v = ctx.rng.choice([1, 2, 4, 4, 8, 8, 16, 32])
+        a, n_ = ctx.rng.choice([(0, 0), (0, 0), (3, 2), (5, 4)])
+        if a and (v * a) % n_:
+            a, n_ = 0, 0
+        return v, ctx.rng.choice([0, 0, 1, 2]), a, n_
+
+    def sym(v, d, a, n_, kind):
+        sd = {"type": SYM[v]}
+        if d:
+            sd["dots"] = kind(d)
+        if a:
+            sd["actual_notes"], sd["normal_notes"] = kind(a), kind(n_)
+        return sd
+    for hi in range(n):
+        kind = ctx.rng.choice([int, int, np.int64, np.int32])
+        notes = [[ctx.rng.randrange(7), ctx.rng.choice(alters), ctx.rng.randint(0, 8)] + list(rnd_dur()) for _ in range(ctx.rng.randint(3, 6))]
+        part = S.Part("P1", "hist", quarter_duration=4)
+        part.add(S.TimeSignature(4, 4), 0)
+        part.add(S.Clef(1, "G", 2, 0), 0)
+        objs = []
+        for i, (st, al, oc, v, d, a, n_) in enumerate(notes):
+            o = S.Note(step=STEPS[st], octave=kind(oc), alter=al if al is None else kind(al), id="h%d" % i, voice=1, staff=1, symbolic_duration=sym(v, d, a, n_, kind))
+            part.add(o, 16 * i, 16 * i + 16)
+            part.add(S.Measure(number=i + 1), 16 * i, 16 * i + 16)
+            objs.append(o)
+        ops, obs, err = [], [], None
+        for _ in range(ctx.rng.randint(4, 8)):
+            r = ctx.rng.random()
+            if r < 0.4 or not objs:
+                try:
+                    data = save_kern(part) if ctx.rng.random() < 0.7 else save_kern(S.Score([part]))
+                    toks = [str(c) for row in data for c in row if c and c != "." and c[0] not in "*=!" and "r" not in c]
+                    try:
+                        data[...] = "4c"
+                    except Exception:
+                        pass
+                except Exception as ex:
+                    err = "%s: %s" % (type(ex).__name__, str(ex)[:200])
+                    break
+                ops.append("(HSave false)")
+                obs.append(toks)
+            elif r < 0.65:
+                i = ctx.rng.randrange(len(objs))
+                st, al, oc = ctx.rng.randrange(7), ctx.rng.choice(alters), ctx.rng.randint(0, 8)
+                objs[i].step, objs[i].alter, objs[i].octave = STEPS[st], (al if al is None else kind(al)), kind(oc)
+                ops.append("(HPitch %d%%nat %s %s %s)" % (i, cz(st), coptz(al), cz(oc)))
+            elif r < 0.9:
+                i = ctx.rng.randrange(len(objs))
+                v, d, a, n_ = rnd_dur()
+                if ctx.rng.random() < 0.5:
+                    objs[i].symbolic_duration = sym(v, d, a, n_, kind)
+                else:      # the dict the note already has, edited in place
+                    sd = objs[i].symbolic_duration
+                    sd.clear()
+                    sd.update(sym(v, d, a, n_, kind))
+                ops.append("(HDur %d%%nat %s %s %s %s)" % (i, cz(v), cz(d), cz(a), cz(n_)))
+            elif len(objs) > 1:
+                i = ctx.rng.randrange(len(objs))
+                part.remove(objs.pop(i))
+                ops.append("(HDrop %d%%nat)" % i)
+        ctx.evaluations += 1
+        ctx.count("token_history")
+        ctx.count("token_history:scalar_kind=%s" % kind.__name__)
+        rep = {"dir": "token_history", "notes": notes, "ops": ops, "observed": obs, "scalar_kind": kind.__name__}
+        if err:
+            ctx.violation("save_kern raised in a history of exports and edits of a one-voice part: %s" % err, rep)
+            continue
+        ctx.nontrivial("token_history" + json.dumps(rep["ops"]) + json.dumps(notes))
+        cases.append(ctuple([clist([ctuple([cz(x[0]), coptz(x[1])] + [cz(y) for y in x[2:]]) for x in notes]), clist(ops),
+                             clist([clist([core.cstr(t) for t in toks]) for toks in obs])]))
+        infos.append(rep)
+    if ok and cases:
+        fh = ctx.coq_failing("hist", "From PV Require Import Model.C19 Model.C19_kern Model.C19_hist.", "", cases, "check_hist", shard=200)
+        ctx.obligation("correspondence: Model.C19_hist.h_run (state machine: notes of a live one-voice part, pitch / written value edited in "
+                       "place or replaced, notes removed, save_kern) = the note tokens of EVERY export of the history, on %d histories "
+                       "(Python and numpy integer attributes)" % len(cases), not fh, fh[:5])
+        for i in fh[:3]:
+            ctx.violation("history of exports and edits of a one-voice part: the tokens save_kern wrote differ from the tokens of the notes "
+                          "the part held at the moment of the export (ops %s, observed %s)" % (" ".join(infos[i]["ops"]), infos[i]["observed"]),
+                          dict(infos[i], clauses=["model", "history"]))
+
+
 def coptz(x):
     return "(@None Z)" if x is None else "(Some %s)" % cz(int(x))
 
@@ -3012,6 +3568,17 @@ def replay(obj):
                     print("   DIFFERENT: %s before %s after %s" % (i_ or "", fmt_xrow(e_), [fmt_xrow(x) for x in (g_ or [])]))
         else:
             print(res[1])
+    elif r.get("dir") == "history":
+        print("---- operations (live objects L*/N*/R* = loaded Scores, B* = built parts):")
+        for i, op in enumerate(r["ops"]):
+            print("   %2d %s" % (i, op))
+        bad = run_history(r, stop_at_first=False)
+        print("---- every observation follows from the state at the moment of the call:", "yes" if not bad else "NO")
+        for oi, cl, text in bad:
+            print("   op %d [%s] %s" % (oi, cl, text))
+    elif r.get("dir") == "token_history":
+        print("one-voice part, notes (step index, alter, octave, value, dots, actual, normal): %s\noperations: %s\nnote tokens of every export "
+              "as observed when the check ran: %s" % (r.get("notes"), r.get("ops"), r.get("observed")))
     elif r.get("dir") == "token":
         print("load_kern on a file holding a quarter c and the token %r gives (token, (rest, grace, step, alter, octave, quarters, tied to the "
               "previous note, (note value, dots, actual, normal))):\n  %s" % (r["token"], probe_token(r["token"])))
